@@ -24,7 +24,7 @@ type c06Case struct {
 	Want string // "" = must succeed; otherwise why it must fail
 }
 
-var c06Faults = []string{"missing-method", "wrong-arity", "non-assignable-parameter", "two-methods-match", "orphan-method", "method-for-no-rule", "differing-return-types", "two-results", "no-result"}
+var c06Faults = []string{"missing-method", "wrong-arity", "non-assignable-parameter", "two-methods-match", "second-match-is-another-productions-method", "orphan-method", "method-for-no-rule", "differing-return-types", "two-results", "no-result"}
 
 // incompatible returns a type to which vt is not assignable.
 func incompatible(p *bind.Plan, vt string) string {
@@ -87,6 +87,31 @@ func applyFault(r *rng.R, base *bind.Plan, fault string) *bind.Plan {
 		}
 		p.Methods = append(p.Methods, dup)
 		p.FaultWhere = []string{m.Name, dup.Name, ruleTag}
+	case "second-match-is-another-productions-method":
+		// m1 spells out the exact types of its production; m2, the method of
+		// another production of the same rule with as many terms, is widened
+		// to `any` throughout, so it matches both productions: the first one
+		// now has two matching methods, and m2 is no orphan
+		var pairs [][2]int
+		for i := range p.Methods {
+			for j := range p.Methods {
+				a, b := &p.Methods[i], &p.Methods[j]
+				if i != j && a.Rule == b.Rule && len(a.Prods) == 1 && len(a.Params) == len(b.Params) && len(a.Params) > 0 && a.Results == 1 && b.Results == 1 {
+					pairs = append(pairs, [2]int{i, j})
+				}
+			}
+		}
+		if len(pairs) == 0 {
+			return nil
+		}
+		pr := pairs[r.Intn(len(pairs))]
+		m1, m2 := &p.Methods[pr[0]], &p.Methods[pr[1]]
+		prod := g.Rules[m1.Rule].Prods[m1.Prods[0]]
+		for i := range m1.Params {
+			m1.Params[i] = p.ValueType(prod.Terms[i])
+			m2.Params[i] = "any"
+		}
+		p.FaultWhere = []string{m1.Name, m2.Name, "rule:" + g.Rules[m1.Rule].Name}
 	case "orphan-method":
 		o := bind.Method{Name: fmt.Sprintf("on_%s__orphan", g.Rules[m.Rule].Name), Rule: m.Rule, Result: m.Result, Results: 1, ID: 9000,
 			Params: []string{"Token", "Token", "Token", "Token", "Token", "Token", "Token", "TagMap"}}
@@ -135,7 +160,7 @@ func applyFault(r *rng.R, base *bind.Plan, fault string) *bind.Plan {
 
 func checkC06(c *Ctx) error {
 	c.Ev = evidence.New("C06", c.Tier, c.Seed, "fault_enumeration",
-		"binding plans: a reference-LALR(1) grammar; a Go type per rule from a palette (pointers to named structs, named int, unnamed and named slice / map / func types, an interface with three implementers, generic instantiations Box[int] and *Box[string], imported *big.Int and time.Duration, any); per production the parameter types of its action method, each either the term's exact value type or a wider type the value type is assignable to (any, an interface it implements, the named/unnamed counterpart with the same underlying type, a named list type for sugar lists); productions of a rule with identical signatures share their method; method names with and without __suffix. Assignability is decided by the Go type checker on the harness prelude, and the expected verdict by an executable statement of the documented binding rule. Every plan is run well-formed (lox must succeed, the package must compile, and on sentences every action parameter must carry exactly the node of its term: the recorded action log is compared call by call with the prescribed one, as in C03) and with one layout fault at a time: missing method, wrong arity, non-assignable parameter, two methods matching one production, orphan on_ method, method for no rule, differing return types, two results, no result (lox must fail and name the production or method). Non-trivial: well-formed plans with at least one widened parameter, and every faulted plan; distinct by grammar+harness text.")
+		"binding plans: a reference-LALR(1) grammar; a Go type per rule from a palette (pointers to named structs, named int, unnamed and named slice / map / func types, an interface with three implementers, generic instantiations Box[int] and *Box[string], imported *big.Int and time.Duration, any); per production the parameter types of its action method, each either the term's exact value type or a wider type the value type is assignable to (any, an interface it implements, the named/unnamed counterpart with the same underlying type, a named list type for sugar lists); productions of a rule with identical signatures share their method; method names with and without __suffix. Assignability is decided by the Go type checker on the harness prelude, and the expected verdict by an executable statement of the documented binding rule. Every plan is run well-formed (lox must succeed, the package must compile, and on sentences every action parameter must carry exactly the node of its term: the recorded action log is compared call by call with the prescribed one, as in C03) and with one layout fault at a time: missing method, wrong arity, non-assignable parameter, two methods matching one production (a duplicate, or the widened method of another production of the rule), orphan on_ method, method for no rule, differing return types, two results, no result (lox must fail and name the production or method). Non-trivial: well-formed plans with at least one widened parameter, and every faulted plan; distinct by grammar+harness text.")
 	c.Ev.Assumptions = []string{
 		"assignability as computed by go/types on the harness prelude",
 		"`x*!` is not used here (its element types would need a Discard method)",
@@ -187,8 +212,13 @@ func checkC06(c *Ctx) error {
 			}
 			cases = append(cases, mk(plan, ""))
 			// one or two faulted variants of the same plan
-			for k := 0; k < 2; k++ {
+			for k := 0; k < 3; k++ {
 				f := c06Faults[r.Intn(len(c06Faults))]
+				if k == 2 {
+					// needs a particular layout (two methods of one rule with
+					// as many parameters): tried on every plan
+					f = "second-match-is-another-productions-method"
+				}
 				fp := applyFault(r, plan, f)
 				if fp == nil {
 					continue
